@@ -52,6 +52,12 @@ def common(chk, prop, thorough, n_quick, n_thorough, max_ops_q, max_ops_t, hosti
     rng = random.Random(lib.seed())
     tabs, problems = lib.regenerate()
     pr = X.standard_proof(chk, prop, thorough)
+    if prop == "C13":
+        # the EFFECT theorems live in their own module (they need the invariant lemmas of C12)
+        pr2 = X.standard_proof(chk, "C13Effect", thorough)
+        pr["ok"] = pr["ok"] and pr2["ok"]
+        pr["failed"] = list(pr["failed"]) + list(pr2["failed"])
+        pr["log"] = pr["log"] + pr2["log"]
     n = n_thorough if thorough else n_quick
     cases = histories(rng, n, max_ops_t if thorough else max_ops_q, hostile)
     cases += [(t, ops.split(" ")) for t, ops in (l.split("\t", 1) for l in X.corpus_lines(prop, "found.txt") if "\t" in l)]
